@@ -91,6 +91,13 @@ CLAIMED = {
         "is raised by the time all rows are read, a FormatException names the offending line, and that line number equals the one from a whole-file read.",
         "Holds on the explored region only. For column-count violations the admissible line numbers are p and p+1 (which of two disagreeing lines offends is not determined by the file) and the cross-configuration comparison is not applied to them.",
         "exhaustive enumeration + Hypothesis sampling of injected faults; oracle = must-raise + line-number invariant across configurations"),
+    "C17": (
+        "Exhaustive over every FASTA of 1 record (2 or 3 thorough) with lengths up to 7 and per-record wrap widths up to 8, crossed with every "
+        "interval [a, b) of every record, for library-built and model-supplied indexes and files with and without a final newline; Hypothesis "
+        "for lengths up to 400, widths up to 130; one 5.6 MB file reaches the cross-chunk offsets of create_index. Oracle: the model records "
+        "(index fields, contig lengths, whole contigs, substrings through both lookup paths with a label order different from the file order).",
+        "Holds on the explored region; the small cores are complete. Files are really written to a temporary directory.",
+        "exhaustive small-domain enumeration + Hypothesis sampling, reference-model oracle (records and faidx layout computed by the generator)"),
     "C18": (
         "Exhaustive over the integer boundary set (0, +-(10^p+d), int64 extremes; singly and in mixed batches) plus Hypothesis batches for each "
         "conversion: ints_to_strings vs str(), str_to_int vs int(), integer lists joined and split, str_to_float vs float() within 8 ulp, "
